@@ -1217,10 +1217,15 @@ def pad_stats(array, pad_width, mode, stat_length):
 
 
 def wrapped_pad_func(array, pad_func, iaxis_pad_width, iaxis, pad_func_kwargs):
-    result = np.empty_like(array)
+    # NumPy's contract: ``pad_func`` modifies the 1-d ``vector`` it is given in
+    # place and its return value is ignored.  Work on a private, writable copy
+    # of the block; a function that returns the padded vector is still honoured.
+    result = np.array(array)
     for i in np.ndindex(array.shape[:iaxis] + array.shape[iaxis + 1 :]):
         i = i[:iaxis] + (slice(None),) + i[iaxis:]
-        result[i] = pad_func(array[i], iaxis_pad_width, iaxis, pad_func_kwargs)
+        out = pad_func(result[i], iaxis_pad_width, iaxis, pad_func_kwargs)
+        if out is not None:
+            result[i] = out
 
     return result
 
